@@ -321,7 +321,8 @@ def check(run):
         for (bb, sp, rv) in K.writes_of_field(b, "SlotBlockData", "leader_misbehaved"):
             t = b.rvalue_term(rv)
             g = [a for a in G.guard_atoms(b, bb, prog) if a[0] == "bool" and a[2] is False and K.is_field(a[1][0], "leader_misbehaved", "SlotBlockData")]
-            o.check(t[0] == "const" and t[2] == 1 and bool(g), "mark_leader_misbehaved|set-once", "set to true only when it was false", sp)
+            # the flag only ever goes from false to true: the value written is the constant `true` (guarded by !flag, or unconditionally - true over true changes nothing)
+            o.check(t[0] == "const" and t[2] == 1, "mark_leader_misbehaved|set-once", "the only value ever written is `true` (the flag never goes back)", sp, {"guarded": bool(g)})
         import engine.paths as P
         tt = P.decision_table(b, prog)
         outs = set()
@@ -329,6 +330,23 @@ def check(run):
             flag = [a for a in atoms if a[0] == "bool" and K.is_field(a[1][0], "leader_misbehaved", "SlotBlockData")]
             if flag and ret is not None and ret[0] == "const":
                 outs.add((flag[0][2], bool(ret[2])))
+        if not outs:
+            # `let first = !self.flag; self.flag = true; first`: the negation of the flag as it was BEFORE the write
+            rl = None
+            for bl in b.blocks:
+                for i, st in enumerate(bl["stmts"]):
+                    if st["k"] == "assign" and not st["dst"]["p"] and st["rv"]["k"] == "un" and st["rv"].get("op") == "Not":
+                        src = b.operand_term(st["rv"]["a"])
+                        if K.is_field(src, "leader_misbehaved", "SlotBlockData") or (K.peel(src)[0] == "local" and any(
+                                K.is_field(b.rvalue_term(s2["rv"]), "leader_misbehaved", "SlotBlockData") for s2 in bl["stmts"][:i] if s2["k"] == "assign" and s2["dst"]["l"] == K.peel(src)[1])):
+                            rl = (st["dst"]["l"], bl["id"], i)
+            ws = [(bb, i) for bb, i, dst, rv, sp in b.assignments() if dst["p"] and dst["p"][-1][0] == "f" and dst["p"][-1][1] == "leader_misbehaved"]
+            ret = K.peel(b.local_term(0))
+            before = rl is not None and all((rl[1] == wb and rl[2] < wi) or (rl[1] != wb and b.dominates(rl[1], wb)) for wb, wi in ws)
+            returned = rl is not None and (ret == ("local", rl[0], b.local_name(rl[0]) or "_%d" % rl[0]) or (isinstance(ret, tuple) and ret[0] == "un" and ret[1] == "Not" and K.is_field(ret[2], "leader_misbehaved", "SlotBlockData")) or
+                                           any(st["k"] == "assign" and st["dst"]["l"] == 0 and not st["dst"]["p"] and K.peel(b.rvalue_term(st["rv"]))[:2] == ("local", rl[0]) for bl in b.blocks for st in bl["stmts"]))
+            if before and returned and ws:
+                outs = {(True, False), (False, True)}
         o.check(outs == {(True, False), (False, True)}, "mark_leader_misbehaved|returns-newly", "returns true exactly when the flag was newly set", b.span, {"table": sorted(outs)})
     for fb in prog.family(IMPL + "flag_leader_misbehavior") + prog.family(BS + "BlockstoreImpl::flag_leader_misbehavior"):
         for (bb, rv, sp, dst) in fb.aggregates(BS + "BlockstoreEvent", "InvalidBlock"):
